@@ -97,11 +97,19 @@ CrashProbe ==
   /\ nchk' = nchk + Len(Ev.probe)
   /\ UNCHANGED intact
 
+(* file-system events of one update: once the store file exists its name is never deleted or renamed away -
+   an interrupted update leaves the old or the new file, whatever the instant of the interruption *)
+FsEvents == /\ Ev.ev = "FsEvents"
+            /\ IF \E i \in 1..Len(Ev.events) : Ev.events[i][2] = Ev.store /\ Ev.events[i][1] \in {"delete", "moved_from"}
+               THEN NoteAll(<<[clause |-> "Atomic", cond |-> "store-file-removed-during-update"]>>) ELSE NoteAll(<<>>)
+            /\ nchk' = nchk + 1
+            /\ UNCHANGED <<T, intact, warm, former>>
+
 Panic == /\ Ev.ev = "Panic" /\ NoteAll(<<[clause |-> "NoPanic", cond |-> Ev.where]>>)
          /\ UNCHANGED <<T, intact, warm, former, nchk>>
 
 Next == /\ l <= N /\ l' = l + 1
-        /\ (Reset \/ Initialize \/ Store \/ ChangePw \/ ClearCache \/ Corrupt \/ Restore \/ Retrieve \/ CrashProbe \/ Panic)
+        /\ (Reset \/ Initialize \/ Store \/ ChangePw \/ ClearCache \/ Corrupt \/ Restore \/ Retrieve \/ CrashProbe \/ FsEvents \/ Panic)
 Spec == Init /\ [][Next]_vars
 
 Report == (l = N + 1) =>
